@@ -1,6 +1,6 @@
 #!/bin/bash
 # usage: seedtest.sh <patch.diff> <Cxx> [Cyy ...]   -- apply a seeded change to /repo, run the quick checks, undo it
-P=$1; shift
+P=$(readlink -f "$1"); shift
 git -C /repo apply "$P" || { echo "PATCH DOES NOT APPLY: $P"; exit 3; }
 trap 'git -C /repo checkout -- .' EXIT
 for c in "$@"; do
